@@ -9,8 +9,22 @@ KINDS = ('none', 'none', 'unknown_tag', 'foreign_tag', 'big_tag', 'dup', 'drop_m
 OK = re.compile(r'^ok (H\[.*\] B\[.*\] T\[.*\]) re=(\S+)$')
 
 
+DIRECTED = ('unknown_tag', 'big_tag', 'dup_auto', 'begin_garbage', 'tag80', 'numtext', 'nul_in_value', 'no_soh', 'trailer_tag_in_body')
+
+
 def gen(rng, sc, n):
     lines, meta = [], {}
+    import random
+    r0 = random.Random('C04-directed')
+    for k in DIRECTED:                              # every known-finding class is exercised in every run
+        for _ in range(12):
+            mt, items = cc.gen_message(r0, sc, p_opt=0.3)
+            raw, info = cc.mutate(r0, sc, mt, items, k)
+            if k == 'no_soh':
+                raw = raw[:-1] + b'x'
+            l = 'dec s ' + cc.hx(raw)
+            lines.append(l)
+            meta[l] = (raw, k)
     for i in range(n):
         mt, items = cc.gen_message(rng, sc, p_opt=rng.choice((0.0, 0.2, 0.6, 1.0)))
         k = rng.choice(KINDS)
